@@ -170,6 +170,11 @@ def documents(thorough):
         {"begin": "3s", "end": "4s", "content": ["five ", ("span", {"style": "a-chain-of-two"}, ["six"])]}]}]}, False, \
         {"en-US": [(S, 2 * S, ["one ", ("span", {"style": "chain-a"}, ["two"]), " three ", ("span", {"style": "zz-chain"}, ["four"])], None, None, None),
                    (3 * S, 4 * S, ["five ", ("span", {"style": "a-chain-of-two"}, ["six"])], None, None, None)]}
+    yield "one language in two divs placed in different regions", {"divs": [
+        {"lang": "en-US", "region": "top", "ps": [{"begin": "1s", "end": "2s", "content": ["upper scene"]}]},
+        {"lang": "en-US", "region": "low", "ps": [{"begin": "3s", "end": "4s", "content": ["lower scene"]}, {"begin": "5s", "end": "6s", "content": ["third"]}]}]}, \
+        False, {"en-US": [(S, 2 * S, ["upper scene"], None, None, "top"), (3 * S, 4 * S, ["lower scene"], None, None, "low"),
+                          (5 * S, 6 * S, ["third"], None, None, "low")]}
     yield "caption style reference", {"divs": [{"lang": "en-US", "ps": [{"begin": "1s", "end": "2s", "style": "emph",
                                                                           "content": ["all italic"]}]}]}, False, \
         {"en-US": [(S, 2 * S, ["all italic"], None, "emph", None)]}
@@ -273,7 +278,7 @@ def read_back(r):
 
 def explore(ctx, thorough):
     W = World(ctx)
-    bad = {k: [] for k in ("cues", "times", "text", "italics", "layout", "langs", "roundtrip")}
+    bad = {k: [] for k in ("cues", "times", "text", "italics", "layout", "langs", "roundtrip", "to_sami")}
     n = 0
     default_region = None
     for label, doc, pretty, want in documents(thorough):
@@ -311,6 +316,16 @@ def explore(ctx, thorough):
             bad["roundtrip"].append(dict(case, why="read -> write -> read", raises=f"{e.exc_name}: {e}"[:140]))
         except AnalysisError as e:
             raise AnalysisError(f"DFXP read -> write -> read cannot be folded on the document '{label}': {e}")
+        # documents with italic characters, once more: DFXP -> SAMIWriter.write -> SAMIReader.read keeps the italic characters
+        # (styles referenced by id, chained references and inline attributes all travel through the SAMI stylesheet / spans)
+        if not pretty and any(c["italic"] for cs_ in got.values() for c in cs_) and not any(
+                c["style"].get("italics") or c["style"].get("class") for cs_ in got.values() for c in cs_):
+            try:
+                to_sami(ctx, W, label, got, bad)
+            except FoldRaise as e:
+                bad["to_sami"].append(dict(case, raises=f"{e.exc_name}: {e}"[:160]))
+            except AnalysisError as e:
+                raise AnalysisError(f"DFXP -> SAMI -> read cannot be folded on the document '{label}': {e}")
         for lang, caps in want.items():
             g = got[lang]
             if len(g) != len(caps):
@@ -348,6 +363,46 @@ def explore(ctx, thorough):
                             break
     n += roundtrip(ctx, W, bad)
     return W, bad, n
+
+
+def to_sami(ctx, W, label, got, bad):
+    """the caption set just read from DFXP (W.last) written by SAMIWriter and read by SAMIReader: same italic characters per cue"""
+    from ..core.samimodels import SAMI_MODELS
+    from . import sami_reader_fold as SF
+    if "html.parser.HTMLParser" not in W.F.external_models:
+        W.F.external_models = dict(W.F.external_models, **SAMI_MODELS)
+    wcls = ctx.index.get_class("pycaption/sami.py", "SAMIWriter")
+    rcls = ctx.index.get_class("pycaption/sami.py", "SAMIReader")
+    objs = []
+    for cls_ in (wcls, rcls):
+        me = Stub(cls_.name, {}, cls=cls_)
+        init = cls_.find_method("__init__")
+        if init is not None:
+            W.F.call_function(init, [], {}, self_value=me)
+        objs.append(me)
+    doc = W.F.call_function(wcls.find_method("write"), [W.last], {}, self_value=objs[0])
+    back_set = W.F.call_function(rcls.find_method("read"), [doc], {}, self_value=objs[1])
+    back = SF.read_back(back_set)
+    # ... and what a consumer of that caption set makes of it: the WebVTT writer's <i> tags
+    vcls = ctx.index.get_class("pycaption/webvtt.py", "WebVTTWriter")
+    vw = Stub("WebVTTWriter", {}, cls=vcls)
+    vinit = vcls.find_method("__init__")
+    if vinit is not None:
+        W.F.call_function(vinit, [], {}, self_value=vw)
+    for lang, cs_ in got.items():
+        after = [SF.marked(c["chars"], 1) for c in back.get(lang, [])]
+        before = [c["italic"] for c in cs_]
+        if after != before:
+            bad["to_sami"].append({"document": label, "language": lang, "italic_characters_read_from_DFXP": before,
+                                   "after_SAMIWriter_and_SAMIReader": after, "sami": doc[-400:]})
+            continue
+        vtt = W.F.call_function(vcls.find_method("write"), [back_set], {"lang": lang}, self_value=vw)
+        cues, problem = SF.vtt_chars(vtt)
+        shown_ = None if cues is None else [SF.marked(ch, 1) for ch in cues]
+        if shown_ != before:
+            bad["to_sami"].append({"document": label, "language": lang, "italic_characters_read_from_DFXP": before,
+                                   "in_the_WebVTT_written_from_the_SAMI_read": shown_ if cues is not None else problem,
+                                   "webvtt": vtt[-300:] if isinstance(vtt, str) else None})
 
 
 def roundtrip(ctx, W, bad):
@@ -459,6 +514,8 @@ TEXTS_BY_KEY = {
     "italics": "the italic characters are those inside an italic span / under an italic style",
     "layout": "every text node carries the layout of the region referenced by the nearest of span / p / div",
     "langs": "languages in order of first appearance; a div without xml:lang takes the document language",
+    "to_sami": "documents with italic spans (inline, by style reference, by chained references): DFXPReader.read -> SAMIWriter.write -> "
+               "SAMIReader.read keeps the italic characters of every cue",
     "roundtrip": "DFXPWriter.write -> DFXPReader.read: instants (ms), lines, italic characters and every character's effective "
                  "layout survive, and a second trip changes nothing further (white-space normalised)",
 }
